@@ -179,6 +179,11 @@ def _emit_type(asm, out, kind, kv, maps, drops, adds=()):
     code = _code_only(txt)
     # drop attributes (derive etc.) and doc comments; keep the item itself
     kwpos = re.search(r'\b(pub(\([^)]*\))?\s+)?%s\b' % kind, code)
+    derives = []
+    for dm in re.finditer(r'#\[derive\(([^)]*)\)\]', code[:kwpos.start()]):
+        derives += [d.strip() for d in dm.group(1).split(',') if d.strip()]
+    keep = [d for d in derives if (d in ('Clone', 'Copy') and ('Copy' in derives or kv.get('clone'))) or (d in ('PartialEq', 'Eq') and kv.get('eq'))]
+    dropped_derives = [d for d in derives if d not in keep]
     body = code[kwpos.start():]
     body = re.sub(r'#\[[^\]]*\]', '', body)
     for f in drops:
@@ -200,7 +205,11 @@ def _emit_type(asm, out, kind, kv, maps, drops, adds=()):
     pre = kv.get('attrs', '')
     if pre:
         out.append(pre)
-    out.append('// extracted %s:%d (attributes and comments dropped)' % (kv['file'], src.line_of(it.start)))
+    if keep:
+        out.append('#[derive(%s)]' % ', '.join(keep))
+    if dropped_derives:
+        asm.dropped.append('%s: derive(%s) dropped' % (kv['name'], ', '.join(dropped_derives)))
+    out.append('// extracted %s:%d (comments dropped; derives kept: %s)' % (kv['file'], src.line_of(it.start), ', '.join(keep) or 'none'))
     out.extend(body.split('\n'))
     asm.functions.append({'name': '%s %s' % (kind, kv['name']), 'file': kv['file'], 'line': src.line_of(it.start),
                           'sha256': hashlib.sha256(txt.encode()).hexdigest(), 'props': []})
@@ -308,6 +317,8 @@ def _emit_fn(asm, out, unit, kv, block, default_props):
                 inserts.append((kwpos + m.end(), '%s: ' % x))
         cur = None
         lines = []
+        order = {'invariant_except_break': 0, 'invariant': 1, 'ensures': 2}
+        specs = sorted(specs, key=lambda kx: order.get(kx[0], 9))   # stable: clause order within a group is kept
         for k, x in specs:
             if k in ('invariant', 'invariant_except_break', 'ensures'):
                 if cur != k:
